@@ -8,7 +8,7 @@
 // process) evaluates save(name) / load(name) through repl.EvalStringWithOption with its working
 // directory inside a scratch tree with sentinel files; the parent re-lists and hashes the tree
 // after every call, reports what changed and puts the tree back.
-//     input   f;<cfg>;<save|load>;<hex name>    cfg = 00 restricted, 01 empty-only, 10 unrestricted, n = load/save disabled
+//     input   f;<cfg>;<save|load|img>;<hex name>    cfg = 00 restricted, 01 empty-only, 10 unrestricted, n = load/save disabled
 //     obs     r=<ok:<hex trimmed output> | err>;t=<C|M|D:<hex path relative to the scratch root>,... | ->
 package main
 
@@ -167,10 +167,14 @@ func sanitizeChild(args []string) int {
 		name := unhx(h)
 		o := repl.EvalStringOptions()
 		o.PreInput = func(s *eval.State) { s.SetArgs([]string{name}) }
-		res, errs, _ := repl.EvalStringWithOption(context.Background(), o, op+"(args[0])")
+		prog := op + "(args[0])"
+		if op == "img" { // image.save: the argument is the name of the image, the file name is fixed
+			prog = "image.new(args[0],2,2)\nimage.save(args[0])"
+		}
+		res, errs, _ := repl.EvalStringWithOption(context.Background(), o, prog)
 		if len(errs) > 0 {
 			fmt.Fprintln(out, "err")
-		} else if op == "save" {
+		} else if op != "load" {
 			fmt.Fprintln(out, "ok:-")
 		} else {
 			fmt.Fprintln(out, "ok:"+hx(strings.TrimSpace(res)))
@@ -267,6 +271,11 @@ func sanitizeGen(tier string, r *rng, emit func(string)) {
 			for _, op := range []string{"save", "load"} {
 				emit("f;" + c + ";" + op + ";" + hx(n))
 			}
+		}
+	}
+	for _, n := range aimed { // image.save(name): always ./grol.png, whatever the configuration and the name
+		for _, c := range []string{"00", "01", "n", "10"} {
+			emit("f;" + c + ";img;" + hx(n))
 		}
 	}
 	for i := 0; i < nF; i++ {
